@@ -861,13 +861,25 @@ class Food(UnitConversions):
 
         self.validate_if_list()
 
+        if isinstance(key, (int, np.integer)):
+            # a single month of an "each month" series is a "per month" value
+            (
+                kcals_units,
+                fat_units,
+                protein_units,
+            ) = self.get_units_from_list_to_element()
+        else:
+            kcals_units = self.kcals_units
+            fat_units = self.fat_units
+            protein_units = self.protein_units
+
         return Food(
             kcals=self.kcals[key],
             fat=self.fat[key],
             protein=self.protein[key],
-            kcals_units=self.kcals_units,
-            fat_units=self.fat_units,
-            protein_units=self.protein_units,
+            kcals_units=kcals_units,
+            fat_units=fat_units,
+            protein_units=protein_units,
         )
 
     def __setitem__(self, key, value):
